@@ -151,6 +151,9 @@ func (h *Hub) UnregisterRemoteSKI(ski string) {
 
 	if existingC != nil {
 		existingC.CloseConnection(true, 4500, "User close")
+
+		// a handshake message processed meanwhile may have set the service to trusted again
+		service.SetTrusted(false)
 	}
 }
 
